@@ -1,7 +1,7 @@
 (* C01 -- A failing check always fails the run: lifecycle, failure count, exit value.
    Only statements; every proof is `exact <lemma>` into C01_Proofs.v. *)
 From Coq Require Import NArith ZArith Bool List.
-From CppUVerif Require Import gen.Gen_Common lib.CInt C01_Model C01_Proofs C01_Console C01_ConsoleProofs.
+From CppUVerif Require Import gen.Gen_Common lib.CInt C01_Model C01_Proofs C01_Console C01_ConsoleProofs C01_TryProofs.
 Import ListNotations.
 Local Open Scope Z_scope.
 
@@ -63,11 +63,11 @@ Print Assumptions C01_checkk_step.
 (* the same at the level of the oracle's vocabulary (what C01_lifecycle / C01_failures_once / C01_summary_true are stated with): a
    check of kind kd after passing statements is executed, adds counted kd a to the phase's "checks", demands exactly the record at
    (f, l) when it fails and then cuts the phase off; nothing of it is demanded when it passes *)
-Theorem C01_checkk_wants : forall i t pre kd a f l post, completes pre = true ->
+Theorem C01_checkk_wants : forall i t pre kd a f l post, completes pre = true -> existsb intercepts pre = false ->
   let x := SCheckK kd a f l in
   executed (pre ++ x :: post) = pre ++ x :: (if passes kd a then executed post else []) /\
-  nb counts_check (executed (pre ++ x :: post)) =
-    (nb counts_check pre + counted kd a + (if passes kd a then nb counts_check (executed post) else 0))%N /\
+  sumN n_checks (executed (pre ++ x :: post)) =
+    (sumN n_checks pre + counted kd a + (if passes kd a then sumN n_checks (executed post) else 0))%N /\
   flat_map (stmt_failure i t) (executed (pre ++ x :: post)) =
     (if passes kd a then flat_map (stmt_failure i t) (executed post) else [mkF i f l 0]).
 Proof. exact checkk_wants. Qed.
@@ -242,6 +242,153 @@ Print Assumptions C01_console_build_independent.
 Theorem C01_console_noflush_refuted : ~ console_noflush_stmt.
 Proof. exact console_noflush_refuted. Qed.
 Print Assumptions C01_console_noflush_refuted.
+
+(* --------------------------------------------------------------------------------------------------------------
+   USER TRY BLOCKS, CHECK_THROWS, TESTS MADE BY THE PUBLIC MACROS (coq/C01_TryProofs.v).  A statement of a phase may be
+   try { blk } catch (h) { hd } (STry) or CHECK_THROWS(e, helper) (SThrows); the statements inside are logged as sub events.
+   -------------------------------------------------------------------------------------------------------------- *)
+(* the exit of a failing C++-style check (CppUTestFailedException: a class without a base class) is caught by catch (...) only *)
+Theorem C01_failed_check_caught_only_by_catch_all : forall h, catches h XFailed = true <-> h = HAll.
+Proof. exact catches_failed_iff. Qed.
+Print Assumptions C01_failed_check_caught_only_by_catch_all.
+
+(* machine level, ANY state, the build with exceptions: what executing one statement (simple or compound) does to the checks and
+   failure counters, the event / sub-event / failure logs, and how it leaves *)
+Theorem C01_stmt_step : forall i ph k x s,
+  let r := exec_stmt true i ph k x s in
+  k_checks (cn (fst r)) = (k_checks (cn s) + n_checks x)%N /\
+  k_fail (cn (fst r)) = (k_fail (cn s) + n_checkfails x)%N /\
+  events_of (out (fst r)) = events_of (out s) ++ [mkEv i ph k (depth s)] /\
+  subs_of (out (fst r)) = subs_of (out s) ++ stmt_subs i ph k x /\
+  (forall t, fails_of (out (fst r)) ++ (if how_escapes (stmt_how x) then [exc_failure i t] else []) = fails_of (out s) ++ stmt_failure i t x) /\
+  snd r = outcome_of (stmt_how x) s /\
+  (snd r = ONormal <-> is_pass x = true).
+Proof. exact stmt_step. Qed.
+Print Assumptions C01_stmt_step.
+
+(* a failing check (C-style or C++-style) inside a try block with a handler for ANY type: the handler is not entered, the statement
+   does not pass, the block runs up to and including the failing check and no further, exactly one failure record is demanded *)
+Theorem C01_try_failing_check : forall i t ph k blk e hd, ends_in_check blk ->
+  let x := STry blk (HType e) hd in
+  handler_entered blk (HType e) = false /\
+  stmt_how x = bases_how blk /\
+  is_pass x = false /\
+  stmt_subs i ph k x = map (fun jb => mkSub i ph k (fst jb)) (number 0 (b_executed blk)) /\
+  (exists f, stmt_failure i t x = [f] /\ f_kind f = 0%N /\ f_test f = i) /\
+  n_checkfails x = 1%N.
+Proof. exact try_failing_check. Qed.
+Print Assumptions C01_try_failing_check.
+
+(* ... and nothing that stands behind the try block in the phase is executed *)
+Theorem C01_nothing_after_try_check : forall pre blk e hd post,
+  completes pre = true -> ends_in_check blk -> executed (pre ++ STry blk (HType e) hd :: post) = pre ++ [STry blk (HType e) hd].
+Proof. exact nothing_after_try_check. Qed.
+Print Assumptions C01_nothing_after_try_check.
+
+(* the same on the machine, from any state: sub events of the block only, ONE failure record, failure counter + 1, and the statement
+   leaves the phase the way the failing check does (longjmp / the framework's exception), never normally *)
+Theorem C01_try_failing_check_step : forall i ph k blk e hd s, ends_in_check blk ->
+  let r := exec_stmt true i ph k (STry blk (HType e) hd) s in
+  subs_of (out (fst r)) = subs_of (out s) ++ map (fun jb => mkSub i ph k (fst jb)) (number 0 (b_executed blk)) /\
+  (exists f, fails_of (out (fst r)) = fails_of (out s) ++ [f] /\ f_kind f = 0%N) /\
+  k_fail (cn (fst r)) = (k_fail (cn s) + 1)%N /\
+  snd r = outcome_of (bases_how blk) s /\ snd r <> ONormal.
+Proof. exact try_failing_check_step. Qed.
+Print Assumptions C01_try_failing_check_step.
+
+(* an exception of the program's own that a handler of the try block catches does not escape: the handler runs, and when it completes
+   the statement passes and nothing is recorded; one that no handler catches escapes (one record at the TEST's location) *)
+Theorem C01_try_caught_exception : forall i t ph k blk h hd ex,
+  bases_how blk = HowThrow ex -> ex <> XFailed -> catches h ex = true ->
+  let x := STry blk h hd in
+  handler_entered blk h = true /\ stmt_how x = bases_how hd /\
+  stmt_subs i ph k x = map (fun jb => mkSub i ph k (fst jb)) (number 0 (b_executed blk))
+                       ++ map (fun jb => mkSub i ph k (fst jb)) (number (N.of_nat (length blk)) (b_executed hd)) /\
+  (bases_how hd = HowDone -> is_pass x = true /\ stmt_failure i t x = []).
+Proof. exact try_caught_exception. Qed.
+Print Assumptions C01_try_caught_exception.
+Theorem C01_try_uncaught_exception : forall i t blk h hd ex,
+  bases_how blk = HowThrow ex -> ex <> XFailed -> catches h ex = false ->
+  let x := STry blk h hd in
+  handler_entered blk h = false /\ stmt_how x = HowThrow ex /\ is_pass x = false /\ stmt_failure i t x = [mkF i 0 (t_line t) 1].
+Proof. exact try_uncaught_exception. Qed.
+Print Assumptions C01_try_uncaught_exception.
+
+(* CHECK_THROWS(ex, helper()) with checks inside the helper *)
+Theorem C01_check_throws_cases : forall i t ex blk f l,
+  let x := SThrows ex blk f l in
+  (forall e, bases_how blk = HowThrow e -> catches_type ex e = true ->
+     is_pass x = true /\ stmt_failure i t x = [] /\ n_checks x = (sumN b_counts (b_executed blk) + 1)%N) /\
+  (bases_how blk = HowDone -> is_pass x = false /\ stmt_failure i t x = [mkF i f l 0] /\ n_checks x = (sumN b_counts (b_executed blk) + 1)%N) /\
+  (forall e, bases_how blk = HowThrow e -> e <> XFailed -> catches_type ex e = false ->
+     is_pass x = false /\ stmt_failure i t x = [mkF i f l 0] /\ stmt_how x = HowThrow XFailed) /\
+  (bases_how blk = HowJump ->
+     is_pass x = false /\ stmt_how x = HowJump /\ n_checks x = sumN b_counts (b_executed blk) /\ exists r, stmt_failure i t x = [r] /\ f_kind r = 0%N).
+Proof. exact check_throws_cases. Qed.
+Print Assumptions C01_check_throws_cases.
+
+(* scope: catch (...) around a C++-style check that can fail (CHECK_THROWS has one inside) is outside what the oracle judges -- and
+   nothing else is: a handler for a type never puts a program outside *)
+Theorem C01_intercepts_iff : forall x,
+  intercepts x = true <->
+  (exists blk hd, x = STry blk HAll hd /\ existsb b_cxx_fail blk = true) \/ (exists e blk f l, x = SThrows e blk f l /\ existsb b_cxx_fail blk = true).
+Proof. exact intercepts_iff. Qed.
+Print Assumptions C01_intercepts_iff.
+Theorem C01_spec_out_of_scope : forall scn o, existsb rintercepts (s_tests scn) = true -> spec scn o = true.
+Proof. exact spec_out_of_scope. Qed.
+Print Assumptions C01_spec_out_of_scope.
+
+(* the oracle on the program of red-team change C01-1 (a failing check inside try / catch (const std::exception&) { FAIL }): every
+   accepted observation shows the block up to the failing check, no handler statement, nothing behind the try block, one record;
+   what a tree shows in which the framework's exception is a std::exception is rejected *)
+Theorem C01_try_oracle : forall o, spec ex_try o = true ->
+  forall rp, In rp (o_reps o) ->
+    r_subs rp = [mkSub 0 1 0 0; mkSub 0 1 0 1] /\ map strip (r_events rp) = [(0, 1, 0); (0, 2, 0); (1, 1, 0)]%N /\ length (r_fails rp) = 1%nat.
+Proof. exact ex_try_oracle. Qed.
+Print Assumptions C01_try_oracle.
+Theorem C01_try_std_handler_rejected :
+  spec ex_try (mkObs false None [mkRep [mkEv 0 1 0 2; mkEv 0 2 0 2; mkEv 1 1 0 2] [mkF 0 0 105 0; mkF 0 0 107 0] [(0, true); (0, true)]
+                                       (Some (mkSum false (Some 2%N) 2 2 5 0 0)) (Some (mkCnt 2 2 5 2 0 0))
+                                       [mkSub 0 1 0 0; mkSub 0 1 0 1; mkSub 0 1 0 3]]) = false.
+Proof. exact ex_try_std_handler_rejected. Qed.
+Print Assumptions C01_try_std_handler_rejected.
+
+(* ignored tests: without -ri counted as ignored, nothing runs; with -ri the test's OWN setup / body / teardown run (createTest() of
+   the shell builds the test's class), its checks and failures count, it is counted as run and not as ignored *)
+Theorem C01_ignored_not_run : forall exc cfg i t s,
+  t_ignored t = true -> c_runign cfg = false -> shell_run exc cfg i t s = (count one_ign s, ONormal).
+Proof. exact ignored_not_run. Qed.
+Print Assumptions C01_ignored_not_run.
+Theorem C01_run_ignored_runs_own_phases : forall exc cfg i t s,
+  c_runign cfg = true -> ok_test exc (c_rethrow cfg) t = true ->
+  let s' := fst (shell_run exc cfg i t s) in
+  events_of (out s') = events_of (out s) ++ map (fun e => mkEv (fst (fst e)) (snd (fst e)) (snd e) (depth s + 2)) (want_events i t) /\
+  subs_of (out s') = subs_of (out s) ++ want_subs i t /\
+  fails_of (out s') = fails_of (out s) ++ want_fails i t /\
+  k_fail (cn s') = (k_fail (cn s) + N.of_nat (length (want_fails i t)))%N /\
+  k_checks (cn s') = (k_checks (cn s) + want_checks t)%N /\
+  k_run (cn s') = (k_run (cn s) + 1)%N /\ k_ign (cn s') = k_ign (cn s).
+Proof. exact run_ignored_runs_own_phases. Qed.
+Print Assumptions C01_run_ignored_runs_own_phases.
+Theorem C01_run_ignored_started : forall cfg ts, c_runign cfg = true ->
+  filter (started cfg) ts = filter (fun it => selected cfg (snd it)) ts /\ k_ign (rep_counts cfg ts) = 0%N.
+Proof. exact run_ignored_started. Qed.
+Print Assumptions C01_run_ignored_started.
+(* the oracle on the program of red-team change C01-2 (TEST + IGNORE_TEST with a failing check, -ri): every accepted observation shows
+   the ignored test's setup, body up to the failing check and teardown, a summary that is not OK with 2 ran / 2 checks, and a
+   returned value that is not zero; "counted as run, nothing ran, OK, 0" is rejected *)
+Theorem C01_run_ignored_oracle : forall o, spec ex_ri o = true ->
+  (forall rp, In rp (o_reps o) ->
+     map strip (r_events rp) = [(0, 0, 0); (0, 1, 0); (0, 2, 0); (1, 0, 0); (1, 1, 0); (1, 1, 1); (1, 2, 0)]%N /\
+     exists m, r_summary rp = Some m /\ m_ok m = false /\ m_run m = 2%N /\ m_checks m = 2%N) /\
+  exists z, o_ret o = Some z /\ z <> 0.
+Proof. exact ex_ri_oracle. Qed.
+Print Assumptions C01_run_ignored_oracle.
+Theorem C01_run_ignored_not_instantiated_rejected :
+  spec ex_ri (mkObs false (Some 0) [mkRep [mkEv 0 0 0 2; mkEv 0 1 0 2; mkEv 0 2 0 2] [] [(0, true); (0, true)]
+                                          (Some (mkSum true None 2 2 1 0 0)) None []]) = false.
+Proof. exact ex_ri_not_instantiated_rejected. Qed.
+Print Assumptions C01_run_ignored_not_instantiated_rejected.
 
 (* the executable oracle used on the implementation's observations accepts every model observation: plain scenarios ... *)
 Theorem C01_run_meets_spec_plain : forall exc scn, valid exc scn = true -> spec scn (run exc scn) = true.
